@@ -39,6 +39,9 @@ def cases(tier, seed):
         c = dict(c)
         c["delay"] = {"mode": "choice", "arity": 3}
         out.append((sc, c))
+    for sc, c in common.add_algs(common.wide_scope(lvl),
+                                 lambda c: common.wide_algs(c, lvl)):
+        out.append((sc, dict(c, delay={"mode": "choice", "arity": 3})))
     return common.rotate(out, seed)
 
 
